@@ -240,6 +240,20 @@ example (sem1 sem2 : Instr → ℂ) (evs : List Ev)
       U sem1 (mkDag [[0, 2], [1]]) * 1 * star (U sem2 (mkDag [[0]])) :=
   iterate_result sem1 sem2 (fun _ _ _ => Commute.all _ _) (fun _ _ _ => Commute.all _ _) 3 _ _ 3 evs h 1
 
+/-- **C04.B0** (`select_starting_point`) the sweep starts with the odd pairs exactly when the first two-qubit gate of the
+    first layer begins on an odd qubit; whichever parity is chosen, every pair position `m < n − 1` is visited
+    (`mem_startIts`), so the choice only reorders the sweep -/
+theorem start_parity (d : Dag) (n : Nat) :
+    (startOdd d = true ↔ ∃ x, firstInLayer (fun g => g.qs.length == 2) d = some x ∧ (x.2.qs.head?.getD 0) % 2 ≠ 0) ∧
+    (∀ m, m < n - 1 → m ∈ startIts n (startOdd d)) := by
+  constructor
+  · unfold startOdd
+    cases h : firstInLayer (fun g => g.qs.length == 2) d with
+    | none => simp
+    | some x => simp
+  · intro m hm
+    exact mem_startIts n _ m hm
+
 end Yaqs.Verdict
 
 /-! ## Part C — the tensor updates of the MPO build as index algebra (`Model/MpoUpdate.lean`) -/
